@@ -1,1 +1,48 @@
-Require Import Model.Conv.
+(* C01 -- conversion accepts exactly the members of the type and returns the typed value.
+   [typed T x] is an independent description of "x is the deep, exactly-typed image for T"
+   (a list for List, a tuple for Tuple/Sequence, a set for Set, the instance with typed supplied
+   fields and defaults, the enum member, ...).  Verdict and value depend on nothing but T and v
+   because [tc] / [convert] are functions; the memoisation in front of them is C10.
+   Acceptance is characterised rule by rule (the documented element-wise rules): None, literals,
+   scalars (the C02 matrix), lists, variadic tuples here; fixed tuples, mappings, unions (C11),
+   conditions (C13), tagged unions (C12), dataclass binding (C15) in the respective files.
+   PARTIAL: the rules are not assembled into one inductive `denotes` relation. *)
+From Coq Require Import ZArith List Bool String.
+Require Import Base.Outcome Model.Values Model.Vocab Model.Types Model.Conv Gen.GenGates.
+Require Import Lemmas.AgreeLemmas Lemmas.AgreeThm Lemmas.StrictLemmas Lemmas.TypedLemmas.
+Import ListNotations.
+
+(* every accepted value is mapped to the deep, exactly-typed image -- ALL types, ALL values *)
+Theorem C01_image_is_exactly_typed : forall t v x, tc t v = Ok x -> typed t x.
+Proof. exact images_are_typed. Qed.
+Print Assumptions C01_image_is_exactly_typed.
+
+(* in every other case: ConvertError (never another exception, never a wrong-typed value) *)
+Theorem C01_accept_or_convert_error : forall t v,
+  wf_ty t -> (exists x, convert t v = COk x /\ typed t x) \/ (exists e, convert t v = CErr e).
+Proof.
+  intros t v WF. destruct (convert_total t v WF) as [[x H]|[e H]]; [left|right; eauto].
+  exists x. split; [exact H|]. unfold convert, convert_with in H.
+  destruct (tc t v) as [y| |z] eqn:E; try discriminate.
+  - inversion H; subst. eapply images_are_typed; eauto.
+  - destruct (ce t v); discriminate.
+Qed.
+Print Assumptions C01_accept_or_convert_error.
+
+Theorem C01_accepts_none : forall v x, tc TNone v = Ok x <-> v = VNone /\ x = VNone.
+Proof. exact accepts_none. Qed.
+Theorem C01_accepts_literal : forall vals v x,
+  tc (TLiteral vals) v = Ok x <-> x = v /\ exists l, In l vals /\ py_eqb v l = true.
+Proof. exact accepts_literal. Qed.
+Theorem C01_accepts_scalar : forall s v x,
+  tc (TScalar s) v = Ok x <-> strict_ok s (kind_of v) = true /\ scalar_ctor s v = ROk x.
+Proof. exact accepts_scalar. Qed.
+Theorem C01_accepts_list : forall e v x,
+  tc (TSeq SeqList e) v = Ok x <->
+  gate_sequence (kind_of v) = true /\ exists ys, x = VList ys /\ Forall2 (fun vi yi => tc e vi = Ok yi) (items_of v) ys.
+Proof. exact accepts_list. Qed.
+Theorem C01_accepts_variadic_tuple : forall e v x,
+  tc (TSeq SeqTuple e) v = Ok x <->
+  gate_sequence (kind_of v) = true /\ exists ys, x = VTuple ys /\ Forall2 (fun vi yi => tc e vi = Ok yi) (items_of v) ys.
+Proof. exact accepts_vtuple. Qed.
+Print Assumptions C01_accepts_list.
